@@ -738,7 +738,74 @@ def shrink(ctx, failure):
 
 
 
+def odd_bodies(ctx, n):
+    """directed family: ticker bodies that do unusual but legitimate things - run a complete nested simulation, take
+    positive time under interval(0), use exact rational periods: the grid / pause arithmetic of the text still holds"""
+    import usim
+    from fractions import Fraction
+    from usim import time, interval, delay, IntervalExceeded
+    rng = ctx.rng
+    for _ in range(n):
+        kind = rng.choice(['nested-run', 'nested-run', 'zero-interval-slow-body', 'fraction-delay', 'fraction-interval'])
+        case = {'odd_body': kind}
+        log = []
+        if kind == 'nested-run':
+            p, make = rng.choice([2, 5, 10]), rng.choice([interval, delay])
+            case.update(period=p, ticker=make.__name__)
+
+            async def inner():
+                await (time + rng.choice([1, 7, 30]))
+
+            async def main():
+                k = 0
+                async for now in make(p):
+                    log.append((now, time.now))
+                    usim.run(inner(), start=rng.choice([0, 100]))     # a whole simulation inside the body: takes no outer time
+                    k += 1
+                    if k == 3:
+                        break
+            want = [(p * (i + 1), p * (i + 1)) for i in range(3)]
+        elif kind == 'zero-interval-slow-body':
+            d = rng.choice([1, 2])
+            case.update(body=d)
+
+            async def main():
+                try:
+                    async for now in interval(0):
+                        log.append((now, time.now))
+                        await (time + d)
+                    log.append('ended')
+                except IntervalExceeded:
+                    log.append(('exceeded', time.now))
+            want = [(0, 0), ('exceeded', d)]
+        else:
+            p = Fraction(1, rng.choice([3, 7]))
+            make = delay if kind == 'fraction-delay' else interval
+            case.update(period=str(p))
+
+            async def main():
+                k = 0
+                async for now in make(p):
+                    log.append((now, time.now))
+                    k += 1
+                    if k == 4:
+                        break
+                await (time == p * 7)        # an exact later date is still hit: the clock has stayed exact
+                log.append(('date', time.now))
+            want = [(p * (i + 1), p * (i + 1)) for i in range(4)] + [('date', p * 7)]
+        try:
+            usim.run(main(), start=Fraction(0) if kind.startswith('fraction') else 0)
+        except BaseException as e:   # noqa
+            ctx.fail(case, 'raised %r after %r' % (e, log), family='odd-bodies')
+            continue
+        ctx.count(dict(case, family='odd-bodies'), nontrivial=True, validated=False)
+        ctx.bump('family:odd-bodies')
+        if log != want or any(type(x[0]) is float for x in log if kind.startswith('fraction')):
+            ctx.fail(case, 'observed %r, expected %r' % (log, want), family='odd-bodies')
+
+
 def run(ctx):
+    odd_bodies(ctx, ctx.n(40, 500))
     _run_vertical(ctx)
     # second, independent tie: ticker programs (interval/delay nested in scopes/untils next to other activities) on the whole-program machine
     from harness import machine_prop
